@@ -513,9 +513,15 @@ type c28HsmCase struct {
 }
 
 func c28HsmGen(t *rapid.T) c28HsmCase {
+	alias := rapid.StringMatching(`[a-z0-9]{1,10}`).Draw(t, "alias")
+	if rapid.IntRange(0, 1).Draw(t, "aliasraw") == 0 {
+		// the import call stores the alias as the client sent it: capitals, blanks around or inside it
+		pad := []string{" ", "\t", "  ", " \t", ""}
+		alias = rapid.SampledFrom(pad).Draw(t, "lead") + rapid.StringMatching(`[A-Za-z0-9][A-Za-z0-9 _-]{0,8}`).Draw(t, "alias2") + rapid.SampledFrom(pad).Draw(t, "trail")
+	}
 	return c28HsmCase{
 		Entropy: c28GenBytes(t, "entropy", 16, 16),
-		Alias:   rapid.StringMatching(`[a-z0-9]{1,10}`).Draw(t, "alias"),
+		Alias:   alias,
 		Pw:      c28GenPassword(t, "pw"),
 		NewPw:   c28GenPassword(t, "npw"),
 		WrongPw: c28GenPassword(t, "wpw"),
@@ -529,13 +535,16 @@ func c28HsmGen(t *rapid.T) c28HsmCase {
 func c28HsmExec(c c28HsmCase, x *pbt.Ctx) (err error) {
 	bs, ok1 := c28Unhex(c.Entropy, c.Pw, c.NewPw, c.WrongPw, c.Msg)
 	path, ok2 := c28Path(c.Path)
-	if !ok1 || !ok2 || len(path) > 8 || len(bs[0]) != 16 || c.Alias == "" || c.Alias != strings.ToLower(strings.TrimSpace(c.Alias)) {
+	if !ok1 || !ok2 || len(path) > 8 || len(bs[0]) != 16 || strings.TrimSpace(c.Alias) == "" || len(c.Alias) > 40 {
 		return nil
 	}
 	entropy, pw, newPw, wrongRandom, msg := bs[0], string(bs[1]), string(bs[2]), bs[3], bs[4]
 	c28DepthClass(x, len(path))
 	x.NonTrivial = len(path) >= 2
-	desc := fmt.Sprintf("entropy %s path %v pw %s", c.Entropy, c.Path, c.Pw)
+	desc := fmt.Sprintf("entropy %s alias %q path %v pw %s", c.Entropy, c.Alias, c.Path, c.Pw)
+	if c.Alias != strings.ToLower(strings.TrimSpace(c.Alias)) {
+		x.Class("alias-not-normalised")
+	}
 
 	dir, derr := os.MkdirTemp("", "c28hsm")
 	if derr != nil {
@@ -643,6 +652,6 @@ func TestC28(t *testing.T) {
 		"EncryptKey/DecryptKey blob with scrypt N=2,p=1 (0.5% LightScrypt parameters in the thorough tier): passwords empty, printable, unicode, raw bytes, longer than 64 bytes; right password returns the same key/alias/id and signs identically, the blob does not contain the scalar; a wrong password (random, one byte appended/dropped, case changed, empty, NUL prepended, one bit flipped) is refused; passwords with the same HMAC key block (trailing NUL padding, >64 bytes vs digest) count as the same password",
 		pbt.Options{Sub: "keystore", Checks: pbt.Per(3000, 300000)}, c28KeystoreGen, c28KeystoreExec)
 	pbt.Run(t, "C28",
-		"file based key store in a temp dir (pseudohsm.New: LightScrypt): import a 12-word mnemonic, LoadChainKDKey/XSign with a path under right, wrong, changed and old passwords, refused ResetPassword/XDelete leave the key usable, reopened store signs identically",
-		pbt.Options{Sub: "hsm", Checks: pbt.Per(12, 1200)}, c28HsmGen, c28HsmExec)
+		"file based key store in a temp dir (pseudohsm.New: LightScrypt): import a 12-word mnemonic under an alias (half of them with capitals or blanks around it, stored as sent), LoadChainKDKey/XSign with a path under right, wrong, changed and old passwords, refused ResetPassword/XDelete leave the key usable, reopened store signs identically",
+		pbt.Options{Sub: "hsm", Checks: pbt.Per(24, 1200), MinClass: map[string]int{"alias-not-normalised": 2}}, c28HsmGen, c28HsmExec)
 }
